@@ -53,13 +53,14 @@ def download_license(spdx_identifier: str) -> str:
 
 def _path_to_license_file(spdx_identifier: str, project: Project) -> Path:
     root: Optional[Path] = project.root
-    # Hack
+    # Hack: without a VCS, a root called LICENSES is the licenses directory
+    # itself (the command was started inside it, or it was given as --root).
     if (
         root
         and root.name == "LICENSES"
         and isinstance(project.vcs_strategy, VCSStrategyNone)
     ):
-        root = None
+        return root / "".join((spdx_identifier, ".txt"))
 
     licenses_path = find_licenses_directory(root=root)
     return licenses_path / "".join((spdx_identifier, ".txt"))
